@@ -455,6 +455,15 @@ func c20RunCase(out *workerOut, r *Rand, fam string, idx int, root, tier string)
 		cs = c20Gen(r, nil, r.Range(1, 8), 8, 25)
 	case "unstartable":
 		cs = c20Gen(r, []string{"ok", "ok", "ok", "ok", "ok", "ok", "ok", "ok", "ok", "ok", "ok", "ok", "ok", "ok", "ok", "ok", "ok", "ok", "ok", "ok", "ok", "ok", "ok", "ok", "ok", "ok", "ok", "ok", "ok", "ok", "ok", "ok", "ok", "ok", "ok", "ok", "ok", "ok", "ok", "ok"}, r.Range(1, 3), 4, 0)
+	case "late-error":
+		// files of a healthy repository first, then a file of a second repository whose
+		// configuration cannot be loaded: LintFiles fails while resolving the project of the LAST
+		// file, after the checks of the earlier files (and their tool processes) were started
+		cs = c20Gen(r, nil, r.Range(2, 5), 5, 40)
+		cs.Files["zz-broken/.git/HEAD"] = "ref: refs/heads/main\n"
+		cs.Files["zz-broken/.github/actionlint.yaml"] = r.Pick([]string{"self-hosted-runner: [unclosed\n", "self-hosted-runner:\n  labels: 42\n", "paths:\n  '[':\n    ignore: [x]\n", "\t- not yaml\n"})
+		cs.Files["zz-broken/.github/workflows/b.yml"] = "on: push\njobs:\n  j:\n    runs-on: ubuntu-latest\n    steps:\n      - run: echo b\n"
+		cs.Lint = append(cs.Lint, "zz-broken/.github/workflows/b.yml")
 	default:
 		cs = c20Gen(r, nil, r.Range(1, 3), 5, 8)
 	}
@@ -512,6 +521,7 @@ func c20RunCase(out *workerOut, r *Rand, fam string, idx int, root, tier string)
 	delay := []int{0, 300, 3000}[r.Intn(3)]
 	actionlint.VerifTraceStart(r.U64(), delay, "proc.")
 	errs, lerr := l.LintFiles(abs, nil)
+	actionlint.VerifMark("harness.lint.returned", "")
 	// give stragglers (processes still running after the return) the chance to show up in the trace
 	expectedInv := 0
 	for _, s := range cs.Steps {
@@ -546,6 +556,16 @@ func c20RunCase(out *workerOut, r *Rand, fam string, idx int, root, tier string)
 		for _, st := range cs.Steps {
 			st.Expected = ""
 		}
+	}
+	if base == "late-error" {
+		if lerr == nil {
+			out.viol(idx, "C20:unloadable-configuration-not-fatal", "the configuration of the last file's repository cannot be loaded but LintFiles returned results", detail(nil))
+		} else {
+			out.nontrivial(fmt.Sprintf("%s|%d|fatal", fam, idx))
+			out.count("late_errors_observed", 1)
+		}
+		c20TraceSpec(out, idx, trace, invs, par, lerr, detail)
+		return
 	}
 	// ---- (A) exactly once, with the exact sanitised stdin
 	want := map[string]*c20Step{}
@@ -677,6 +697,19 @@ func c20RunCase(out *workerOut, r *Rand, fam string, idx int, root, tier string)
 		}
 	}
 
+	c20TraceSpec(out, idx, trace, invs, par, lerr, detail)
+	if idx < 2 && base == "mixed" {
+		var steps []string
+		for _, s := range cs.Steps {
+			steps = append(steps, fmt.Sprintf("step %d %s shell=%q tool=%s behave=%s", s.ID, s.File, s.Shell, s.Tool, s.Behave))
+		}
+		out.sample(map[string]interface{}{"family": fam, "steps": steps, "workflow_w0": truncate(cs.Files[".github/workflows/w0.yml"], 1500), "fatal": fmt.Sprint(lerr), "diagnostics": len(errs), "tool_invocations": len(invs), "trace_events": len(trace)})
+	}
+}
+
+// c20TraceSpec checks the recorded hook trace and the tool log against the specification of the
+// process pool: bounded concurrency, nothing of the pool after the call returned, every run ended.
+func c20TraceSpec(out *workerOut, idx int, trace []actionlint.VerifEvent, invs []*c20Inv, par int, lerr error, detail func(map[string]interface{}) map[string]interface{}) {
 	// ---- (C) trace specification
 	held, maxHeld, live, maxLive := 0, 0, 0, 0
 	enter := map[string]int{}
@@ -712,7 +745,7 @@ func c20RunCase(out *workerOut, r *Rand, fam string, idx int, root, tier string)
 			if returned {
 				afterReturn++
 			}
-		case "lint.return", "lint.return.error":
+		case "lint.return", "lint.return.error", "harness.lint.returned":
 			returned = true
 		}
 	}
@@ -736,13 +769,6 @@ func c20RunCase(out *workerOut, r *Rand, fam string, idx int, root, tier string)
 	}
 	if !returned {
 		out.viol(idx, "C20:harness", "no lint.return event in the trace", nil)
-	}
-	if idx < 2 && base == "mixed" {
-		var steps []string
-		for _, s := range cs.Steps {
-			steps = append(steps, fmt.Sprintf("step %d %s shell=%q tool=%s behave=%s", s.ID, s.File, s.Shell, s.Tool, s.Behave))
-		}
-		out.sample(map[string]interface{}{"family": fam, "steps": steps, "workflow_w0": truncate(cs.Files[".github/workflows/w0.yml"], 1500), "fatal": fmt.Sprint(lerr), "diagnostics": len(errs), "tool_invocations": len(invs), "trace_events": len(trace)})
 	}
 }
 
@@ -799,6 +825,7 @@ func runC20(r *Run) {
 	add("load", r.Q(30, 600), 5, false, nil)
 	add("load-cpu2", r.Q(30, 600), 5, false, []string{"taskset", "-c", "0,1"})
 	add("unstartable", r.Q(30, 300), 15, false, nil)
+	add("late-error", r.Q(30, 300), 10, false, nil)
 	add("faults-cpu2", r.Q(40, 400), 20, false, []string{"taskset", "-c", "0,1"})
 	if _, err := os.Stat(filepath.Join(binDir(), "verifmon-race")); err != nil {
 		r.Inconclusive("race build of the monitor is missing")
@@ -810,6 +837,9 @@ func runC20(r *Run) {
 	runWorkerPool(r, "c20-worker", tasks, 6, nil)
 	r.Count("race_reports", 0)
 	r.RunFamilies([]*Family{{Name: "strace-cli", N: r.Q(9, 150), Par: 3, Do: c20StraceCase}})
+	if r.Counter("late_errors_observed") == 0 {
+		r.Inconclusive("no run failed while resolving the project of a later file")
+	}
 	if r.SetLen("fatal_classes") < 4 {
 		r.Inconclusive("too few distinct tool failure classes led to a fatal error")
 	}
